@@ -53,6 +53,13 @@ def jobs(tier):
         tag = ''.join('1' if x else '0' for row in zp for x in row)
         add('committor_job', 'committors[n=3,pattern=%s]' % tag, n=3, sources=[0], sinks=[2], zero_pattern=zp)
         add('mfpt_job', 'mfpt[n=3,pattern=%s,sink=1]' % tag, n=3, sinks=[1], zero_pattern=zp)
+    # other memory layouts of the same matrix (a transposed / time-reversed chain is column-major): results and the
+    # caller's array must not depend on them
+    for layout in ('F', 'view'):
+        for n in (2, 3):
+            add('committor_job', 'committors[n=%d,%s-layout]' % (n, layout), n=n, sources=[0], sinks=[n - 1], layout=layout)
+            add('mfpt_job', 'mfpt[n=%d,sink=0,%s-layout]' % (n, layout), n=n, sinks=[0], layout=layout)
+    add('mfpt_job', 'mfpt[n=2,all-pairs,F-layout]', n=2, layout='F')
     add('mfpt_job', 'mfpt[n=2,all-pairs]', n=2)
     if not q:
         add('mfpt_job', 'mfpt[n=3,all-pairs]', n=3)
